@@ -611,6 +611,8 @@ def check_two_providers(acc):
             os.makedirs(di)
             txt = ("# site %d\nsysname *  %%timeout=%d\n    dialog: Q%d sure? ::: Y\n    # (a comment line)\n    dialog: Port #%d is busy, go on? ::: N\ninterface *  %%timeout=%d\n    description ~  %%timeout=%d\n"
                    % (i, t1, i, i, t2, t2 + 100))
+            if i == 1:
+                txt = txt.replace("\n    ", "\n\t")       # this site indents its rule texts with tabs
             open(os.path.join(di, "huawei.deploy"), "w").write(txt)
             roots = (os.path.dirname(di), stock)
             if i == 2:
